@@ -1,7 +1,7 @@
 (* C19: the sink-driven run of a core-fragment program, as a function over the chunk list of the
    plain run of the reference interpreter (see the header of Model.v for why this is adequate:
    captured output never reaches the sink, only the top-level chunks do, in order). *)
-From MJ Require Import Common.Base Lang.Syntax Lang.Interp C19.Model.
+From MJ Require Import Common.Base Lang.Syntax Lang.Interp C19.Model C19.Partial.
 
 Definition split_ok (split : list Z -> list (list Z)) : Prop := forall ch, concat (split ch) = ch.
 
@@ -15,3 +15,17 @@ Definition render_to_sink (c : cfg) (fuel : nat) (body : list stmt) (split : lis
   bind (run c fuel body) (fun s => Ok (render_chunks_to sc wrappers (writes_of split s))).
 
 Definition no_split (ch : list Z) : list (list Z) := [ch].
+
+(* The same for every render, failing ones included (C19/Partial.v keeps the chunks written before a
+   render error): the sink is driven over those chunks; if it fails first, the stored io error
+   replaces everything (take_err), otherwise the render's own error comes back unchanged. *)
+Definition render_to_sink_p (c : cfg) (fuel : nat) (body : list stmt) (split : list Z -> list (list Z))
+    (wrappers : list Z) (sc : list answer) : outcome (list call * option err) :=
+  match run_partial c fuel body with
+  | POk s => Ok (render_chunks_to sc wrappers (writes_of split s))
+  | PErr code out =>
+      let '(log, res) := drive sc (flat_map split (rev out)) in
+      Ok (log, Some (take_err res (MkErr code NoSrc)))
+  | PPanic => Panic
+  | PGas => OutOfGas
+  end.
